@@ -178,6 +178,9 @@ func init() {
 				c.Feature("integer_like_keys")
 			}
 			a, b := gen.Pair(c.R, prof)
+			if i%7 == 6 {
+				a, b = gen.DeepChainPair(c.R, prof, false)
+			}
 			c18Patch(c, ref.ToJSON(a), ref.ToJSON(b))
 		},
 	})
@@ -201,6 +204,9 @@ func init() {
 			a, b := gen.Pair(c.R, prof)
 			if i%11 == 0 {
 				b = map[string]any{}
+			}
+			if i%6 == 5 {
+				a, b = gen.DeepChainPair(c.R, prof, true)
 			}
 			c18Merge(c, ref.ToJSON(a), ref.ToJSON(b))
 		},
